@@ -303,7 +303,7 @@ impl Sub for History {
         "alphabet x column count {1,2,4,16,32} x history of up to 12 ops on one buffer (stripe_into / stripe with generic, AVX2, dispatcher forced to each arm, EncodedSequence::to_striped; configure_wrap(m) growing / shrinking / > R; configure(pssm); clone); after EVERY op the whole matrix, look-ahead rows, len, wrap, Index and symbol counts are compared with a model (linear sequence, running max of requested wrap); sweep = every length 0..=1100 (quick) / 0..=2200 (thorough) striped by AVX2 into a reused buffer; non-trivial = R >= 2 and >= 1 wrap op after a stripe"
     }
     fn cases(&self, tier: Tier) -> u64 {
-        tier.pick(12_000, 600_000)
+        tier.pick(60_000, 2_000_000)
     }
     fn strategy(&self, tier: Tier) -> BoxedStrategy<Case> {
         case_strategy(tier)
